@@ -15,7 +15,7 @@ Fixpoint varint_fuel (fuel : nat) (n : N) : list byte :=
   match fuel with
   | O => []
   | S f => if n <? 128 then [n2b n]
-           else n2b (N.lor (N.land n 127) 128) :: varint_fuel f (N.shiftr n 7)
+           else n2b (n mod 128 + 128) :: varint_fuel f (n / 128)
   end.
 Definition varint (n : N) : list byte := varint_fuel 10 n.
 
@@ -28,7 +28,7 @@ Fixpoint decode_varint_fuel (fuel : nat) (bs : list byte) : option (N * list byt
     | b :: r =>
       if b2n b <? 128 then Some (b2n b, r)
       else match decode_varint_fuel f r with
-           | Some (m, r') => Some (N.land (b2n b) 127 + 128 * m, r')
+           | Some (m, r') => Some (b2n b - 128 + 128 * m, r')
            | None => None
            end
     end
@@ -57,8 +57,8 @@ Fixpoint parse_fields (fuel : nat) (bs : list byte) : option (list field) :=
       match decode_varint bs with
       | None => None
       | Some (key, r) =>
-        let num := N.shiftr key 3 in
-        let wt := N.land key 7 in
+        let num := key / 8 in
+        let wt := key mod 8 in
         if num =? 0 then None
         else if wt =? 0 then
           match decode_varint r with
@@ -117,17 +117,32 @@ Record block_request := mk_req {
 
 Definition u32max : N := 4294967295.
 
-Definition req_fields (r : block_request) : list field :=
+(* the fields in field-number order (what the protobuf encoding guide recommends) ... *)
+Definition req_from_field (r : block_request) : list field :=
+  match rq_from r with
+  | FromHash h => [(2, WBytes h)]
+  | FromNumber n => [(3, WBytes (le_bytes 4 (N.min n u32max)))]
+  end.
+Definition req_fields_sorted (r : block_request) : list field :=
   (if rq_data r * 16777216 =? 0 then [] else [(1, WVarint (rq_data r * 16777216))]) ++
-  (match rq_from r with
-   | FromHash h => [(2, WBytes h)]
-   | FromNumber n => [(3, WBytes (le_bytes 4 (N.min n u32max)))]
-   end) ++
+  req_from_field r ++
   (if rq_dir r =? 0 then [] else [(5, WVarint (rq_dir r))]) ++
   (match rq_max r with
    | Some m => if m =? 0 then [] else [(6, WVarint m)]
    | None => []
    end).
+(* ... and in the order google.golang.org/protobuf emits them: the member of a oneof after all
+   other fields.  Field order is not significant on the wire (parsers must accept any order),
+   so both are encodings of the same message; [decode_request] is order-insensitive. *)
+Definition req_fields (r : block_request) : list field :=
+  (if rq_data r * 16777216 =? 0 then [] else [(1, WVarint (rq_data r * 16777216))]) ++
+  (if rq_dir r =? 0 then [] else [(5, WVarint (rq_dir r))]) ++
+  (match rq_max r with
+   | Some m => if m =? 0 then [] else [(6, WVarint m)]
+   | None => []
+   end) ++
+  req_from_field r.
+Definition encode_request_sorted (r : block_request) : list byte := enc_fields (req_fields_sorted r).
 Definition encode_request (r : block_request) : list byte := enc_fields (req_fields r).
 
 (* BlockRequestMessage.Decode; the oneof keeps the member that came last *)
@@ -142,9 +157,9 @@ Definition decode_request (bs : list byte) : outcome block_request :=
   match parse bs with
   | None => Err 1
   | Some fs =>
-    let fields := N.land (last_varint 1 fs 0) u32max in
-    let dir := N.land (last_varint 5 fs 0) 255 in
-    let mx := N.land (last_varint 6 fs 0) u32max in
+    let fields := last_varint 1 fs 0 mod 4294967296 in     (* uint32 field *)
+    let dir := last_varint 5 fs 0 mod 256 in               (* byte(msg.Direction) *)
+    let mx := last_varint 6 fs 0 mod 4294967296 in
     match last_from fs None with
     | None => Err 2
     | Some (k, b) =>
@@ -152,7 +167,7 @@ Definition decode_request (bs : list byte) : outcome block_request :=
                   else if (length b =? 4)%nat then Some (FromNumber (le_val b)) else None in
       match from with
       | None => Err 3
-      | Some fb => Ok (mk_req (N.land (N.shiftr fields 24) 255) fb dir (if mx =? 0 then None else Some mx))
+      | Some fb => Ok (mk_req ((fields / 16777216) mod 256) fb dir (if mx =? 0 then None else Some mx))
       end
     end
   end.
@@ -263,10 +278,17 @@ Definition normalise (d : block_data) : block_data :=
   mk_bd (bd_hash d) (bd_header d) (norm_opt (bd_body d)) (norm_opt (bd_receipt d))
         (norm_opt (bd_mq d)) (bd_just d).
 
+(* block data within the message's domain: a 32-byte hash, well-typed header and extrinsics,
+   and sizes that fit a protobuf length prefix (64 bits) *)
+Definition size_max : N := 18446744073709551616.
 Definition block_data_ok (d : block_data) : bool :=
   (length (bd_hash d) =? 32)%nat &&
-  (match bd_header d with Some v => has_type header v | None => true end) &&
+  (match bd_header d with
+   | Some v => has_type header v && (lenN (encode header v) <? size_max)
+   | None => true
+   end) &&
   (match bd_body d with Some exts => has_type body (VL (map VB exts)) | None => true end) &&
-  (match bd_receipt d with Some b => lenN b <? 4294967296 | None => true end) &&
-  (match bd_mq d with Some b => lenN b <? 4294967296 | None => true end) &&
-  (match bd_just d with Some b => lenN b <? 4294967296 | None => true end).
+  (match bd_receipt d with Some b => lenN b <? size_max | None => true end) &&
+  (match bd_mq d with Some b => lenN b <? size_max | None => true end) &&
+  (match bd_just d with Some b => lenN b <? size_max | None => true end) &&
+  (lenN (enc_fields (bd_fields d)) <? size_max).
